@@ -80,6 +80,10 @@ class MessageDependency(Message):
         except asyncio.CancelledError:
             await asyncio.wait({call})
             raise
+        finally:
+            if call.done() and (call.cancelled() or call.exception() is not None):
+                # the call did not go through: the message has not been disposed of
+                self._connection._disposing.discard(self.key.id_)
 
     def add_callback(self, fn: Callable[[], Any | Awaitable[Any]]) -> None:
         self._callbacks.append(asyncify(fn))
